@@ -97,6 +97,17 @@ MUTANTS = [
     dict(prop="C20", name="driver: centres not symmetrised", file=SYSR, old="        self.wannier_centers_cart = symmetrizer.symmetrize_WCC(self.wannier_centers_cart)\n        print(f\"number o R-vectors after", new="        self.wannier_centers_cart = self.wannier_centers_cart * 1.0\n        print(f\"number o R-vectors after"),
     dict(prop="C20", name="driver: use_symmetries_index not passed to the point group", file=SYSR, old="        self.set_pointgroup(spacegroup=symmetrizer.spacegroup, use_symmetries_index=use_symmetries_index)", new="        self.set_pointgroup(spacegroup=symmetrizer.spacegroup)"),
     dict(prop="C20", expect="ok", name="PRESERVING: _rotate_matrix via two tensordots", file=SYMW, old="    return cached_einsum(\"ij,jk...,kl->il...\", L, X, R)", new="    _ = np.tensordot(L, X, axes=((1,), (0,)))\n    _ = np.tensordot(R, _, axes=((0,), (1,)))\n    return np.moveaxis(_, 0, 1)"),
+    dict(prop="C28", name="BerryDipole_FermiSea: derivative index not moved first", file=STAT, old="        self.Formula = frml.DerOmega\n        self.fder = 0\n        super().__init__(**kwargs)\n\n    def __call__(self, data_K):\n        res = super().__call__(data_K)\n        # swap axes to be consistent with the eq. (29) of DOI:10.1038/s41524-021-00498-5\n        res.data = res.data.swapaxes(1, 2)", new="        self.Formula = frml.DerOmega\n        self.fder = 0\n        super().__init__(**kwargs)\n\n    def __call__(self, data_K):\n        res = super().__call__(data_K)\n        res.data = res.data.swapaxes(1, 1)"),
+    dict(prop="C28", name="Ohmic_FermiSurf: opposite sign of the factor", file=STAT, old="    def __init__(self, constant_factor=factors.factor_ohmic, **kwargs):\n        self.Formula = frml.VelVel", new="    def __init__(self, constant_factor=-factors.factor_ohmic, **kwargs):\n        self.Formula = frml.VelVel"),
+    dict(prop="C28", name="NLDrude_Fermider2: factor not halved", file=STAT, old="    def __init__(self, constant_factor=factors.factor_nldrude / 2, **kwargs):", new="    def __init__(self, constant_factor=factors.factor_nldrude, **kwargs):"),
+    dict(prop="C28", name="GME_orb_FermiSea: Berry-dipole term added instead of subtracted", file=STAT, old="        Hplus_res.data = Hplus_res.data.swapaxes(1, 2)\n        Omega_res = self.BerryDipole(data_K).mul_array(self.Efermi)\n        return Hplus_res - 2 * Omega_res\n\n\nclass GME_orb_FermiSea_test", new="        Hplus_res.data = Hplus_res.data.swapaxes(1, 2)\n        Omega_res = self.BerryDipole(data_K).mul_array(self.Efermi)\n        return Hplus_res + 2 * Omega_res\n\n\nclass GME_orb_FermiSea_test"),
+    dict(prop="C28", name="GME_orb_FermiSurf: Berry dipole of the sea kind", file=STAT, old="        self.BerryDipole = BerryDipole_FermiSurf(constant_factor=constant_factor, print_comment=False, **kwargs)", new="        self.BerryDipole = BerryDipole_FermiSea(constant_factor=constant_factor, print_comment=False, **kwargs)"),
+    dict(prop="C28", name="GME_spin_FermiSurf: sea weights", file=STAT, old="        self.Formula = frml.VelSpin\n        self.fder = 1", new="        self.Formula = frml.VelSpin\n        self.fder = 0"),
+    dict(prop="C28", name="VelOmega: factors in the opposite order", file=COV, old="        super().__init__([data_K.covariant('Ham', commader=1), Omega(data_K, **kwargs_formula)], name='VelOmega')", new="        super().__init__([Omega(data_K, **kwargs_formula), data_K.covariant('Ham', commader=1)], name='VelOmega')"),
+    dict(prop="C28", name="VelHplus: the minus branch of the orbital moment", file=COV, old="Morb_Hpm(data_K, sign=+1, **kwargs_formula)],\n                         name='VelHplus')", new="Morb_Hpm(data_K, sign=-1, **kwargs_formula)],\n                         name='VelHplus')"),
+    dict(prop="C28", name="FormulaProduct: indices of the second factor first", file="wannierberri/formula/formula.py", old="            self.einsumlines.append(\"LM\" + letters[:dim] + \",MN\" + letters[dim:dim + d] + \"->LN\" + letters[:dim + d])", new="            self.einsumlines.append(\"LM\" + letters[:dim] + \",MN\" + letters[dim:dim + d] + \"->LN\" + letters[dim:dim + d] + letters[:dim])"),
+    dict(prop="C28", name="generalised derivative: sign of the first D term", file="wannierberri/formula/formula.py", old="        summ = self.dA.nn(ik, inn, out)\n        summ -= cached_einsum(\"mld,lnb...->mnb...d\", self.D.nl(ik, inn, out), self.A.ln(ik, inn, out))", new="        summ = self.dA.nn(ik, inn, out)\n        summ += cached_einsum(\"mld,lnb...->mnb...d\", self.D.nl(ik, inn, out), self.A.ln(ik, inn, out))"),
+    dict(prop="C28", expect="ok", name="PRESERVING: swapaxes written as transpose", file=STAT, old="        self.Formula = frml.DerSpin\n        self.fder = 0\n        super().__init__(constant_factor=constant_factor, **kwargs)\n\n    def __call__(self, data_K):\n        res = super().__call__(data_K)\n        # swap axes to be consistent with the eq. (29) of DOI:10.1038/s41524-021-00498-5\n        res.data = res.data.swapaxes(1, 2)", new="        self.Formula = frml.DerSpin\n        self.fder = 0\n        super().__init__(constant_factor=constant_factor, **kwargs)\n\n    def __call__(self, data_K):\n        res = super().__call__(data_K)\n        res.data = res.data.transpose(0, 2, 1)"),
     dict(prop="C08", name="Morb_H declared even under TR", file=COV, old="        self.E = data_K.E_K\n        self.ndim = 1\n        self.transformTR = transform_odd", new="        self.E = data_K.E_K\n        self.ndim = 1\n        self.transformTR = transform_ident"),
     dict(prop="C08", name="Der3E declared even under inversion", file=COV, old="        self.ndim = 3\n        self.transformTR = transform_odd\n        self.transformInv = transform_odd", new="        self.ndim = 3\n        self.transformTR = transform_odd\n        self.transformInv = transform_ident"),
     dict(prop="C08", name="get_transform_TR: SS even", file=DK, old="    elif name in ['CC', 'FF', 'OO', 'GG', 'SS', 'rotAA', 'rotAAab', 'CCab_antisym']:  # odd before derivative\n        p = 1", new="    elif name in ['CC', 'FF', 'OO', 'GG', 'rotAA', 'rotAAab', 'CCab_antisym']:  # odd before derivative\n        p = 1\n    elif name in ['SS']:\n        p = 0"),
